@@ -195,4 +195,97 @@ ValidityClass(I, E, t, te) ==
   LET ie == EpochShift(t, Sub32(I, t))  ee == EpochShift(t, Sub32(E, t)) IN
   IF te = 0 /\ ie = 0 /\ ee = 0 THEN "validity/plain"
   ELSE "validity/wraparound:t" \o ToString(te) \o "/i" \o ToString(ie) \o "/e" \o ToString(ee)
+-----------------------------------------------------------------------------
+(* Totality.  Every operation the statement names is a FUNCTION of its         *)
+(* arguments over the whole quantifier ("every key, digest type, owner name,   *)
+(* salt and iteration count", "+unsupported" digest types): it returns a       *)
+(* value -- "no DS" for a digest type without a definition is a value, a       *)
+(* run-time panic is not.  A recorded call that panicked is therefore judged   *)
+(* wrong whatever its arguments; the class names the part of the domain.       *)
+DSPanicClass(dt) == IF DSHash(dt) = "none" THEN "undefined-type" ELSE DSHash(dt)
+DSPanicKey(dt)   == "ds/panics:" \o DSPanicClass(dt)
+
+-----------------------------------------------------------------------------
+(* BIND private-key text ("Private-key-format: v1.x", written by BIND's        *)
+(* dnssec-keygen and by PrivateKeyString, read by BIND's dst_parse.c and by    *)
+(* NewPrivateKey / ReadPrivateKey).  What such a text MEANS is its set of      *)
+(* fields: the text is a sequence of lines separated by LF, a line             *)
+(* "Name: value" is a field, names are case-insensitive, a line without octets *)
+(* is skipped, and the last line needs no LF after it (the final newline of a  *)
+(* text file is not content).  The key material is the algorithm NUMBER (the   *)
+(* mnemonic in parentheses after it is a comment) and the algorithm's fields;  *)
+(* the format version (v1.2 / v1.3) and the v1.3 timing fields say nothing     *)
+(* about the key.  Two well-formed texts with the same key fields denote the   *)
+(* same private key: KeyLife17!Relay.                                          *)
+(* Not claimed (the statement says "BIND private-key text", and BIND writes    *)
+(* none of these): CR LF line ends, trailing blanks, ';' comments.             *)
+KFMin(S) == CHOOSE i \in S : \A k \in S : i <= k
+KFLines(t) ==                                   \* the lines, as a set: their order is not content
+  LET nl       == { i \in 1..Len(t) : t[i] = 10 }
+      startsAt == {1} \cup { i + 1 : i \in nl }
+      endOf(s) == LET after == { i \in nl : i >= s } IN IF after = {} THEN Len(t) ELSE KFMin(after) - 1
+  IN { Sub(t, s, endOf(s)) : s \in startsAt }
+KFUpTo(v, o) == LET ps == { i \in 1..Len(v) : v[i] = o } IN IF ps = {} THEN v ELSE Sub(v, 1, KFMin(ps) - 1)
+KFField(line) ==                                \* <<name in lower case, value>>; <<>> for a line that is no field
+  LET cs == { i \in 1..Len(line) : line[i] = 58 } IN
+  IF cs = {} THEN <<>>
+  ELSE << Lower(Sub(line, 1, KFMin(cs) - 1)), Sub(line, KFMin(cs) + 2, Len(line)) >>      \* ": " = colon, one space
+KFFields(t) == { KFField(ln) : ln \in KFLines(t) } \ { <<>> }
+
+KFnFormat    == <<112, 114, 105, 118, 97, 116, 101, 45, 107, 101, 121, 45, 102, 111, 114, 109, 97, 116>>   \* private-key-format
+KFnAlgorithm == <<97, 108, 103, 111, 114, 105, 116, 104, 109>>                                             \* algorithm
+KFnTiming    == << <<99, 114, 101, 97, 116, 101, 100>>, <<112, 117, 98, 108, 105, 115, 104>>, <<97, 99, 116, 105, 118, 97, 116, 101>> >>  \* created publish activate
+KFVersion(s) == IF s = "v1.2" THEN <<118, 49, 46, 50>> ELSE <<118, 49, 46, 51>>
+KFWellFormed(t) ==
+  /\ \E f \in KFFields(t) : f[1] = KFnFormat /\ f[2] \in { KFVersion("v1.2"), KFVersion("v1.3") }
+  /\ \A f, g \in KFFields(t) : f[1] = g[1] => f = g                    \* a name has one value
+KFKeyFields(t) ==
+  { IF f[1] = KFnAlgorithm THEN << f[1], KFUpTo(f[2], 32) >> ELSE f :
+      f \in { g \in KFFields(t) : g[1] # KFnFormat /\ g[1] \notin Range(KFnTiming) } }
+KFSameKey(a, b) == KFWellFormed(a) /\ KFWellFormed(b) /\ KFKeyFields(a) = KFKeyFields(b)
+
+(* The layouts in which one key's text may come back from a store or another   *)
+(* tool, as TEMPLATES: the octets of the text with KFVal (-1) where the value   *)
+(* of the field named on that line stands (for Algorithm: the number) and      *)
+(* KFMnem (-2) for the algorithm mnemonic.  kind: "rsa" (RFC 3110 keys: eight   *)
+(* fields) | "ec" (ECDSA and Ed25519: the single field PrivateKey).            *)
+(* lay = [fmt, timing, mnem, blank, finalnl]: format version line; the three   *)
+(* v1.3 timing fields after the key fields (BIND 9.7+ always writes them);     *)
+(* the mnemonic after the algorithm number; empty lines (lead / mid / trail:   *)
+(* how many before the first, between any two, after the last line); the LF    *)
+(* after the last line.                                                        *)
+KFVal  == -1
+KFMnem == -2
+KFCapFormat    == <<80>> \o Tail(KFnFormat)
+KFCapAlgorithm == <<65>> \o Tail(KFnAlgorithm)
+KFCapTiming    == [i \in 1..3 |-> <<KFnTiming[i][1] - 32>> \o Tail(KFnTiming[i])]
+KFStamp == <<50, 48, 50, 54, 48, 49, 48, 49, 48, 48, 48, 48, 48, 48>>                      \* 20260101000000
+KFKeyNames(kind) ==
+  IF kind = "rsa" THEN << <<77, 111, 100, 117, 108, 117, 115>>,                                          \* Modulus
+                          <<80, 117, 98, 108, 105, 99, 69, 120, 112, 111, 110, 101, 110, 116>>,         \* PublicExponent
+                          <<80, 114, 105, 118, 97, 116, 101, 69, 120, 112, 111, 110, 101, 110, 116>>,   \* PrivateExponent
+                          <<80, 114, 105, 109, 101, 49>>, <<80, 114, 105, 109, 101, 50>>,               \* Prime1 Prime2
+                          <<69, 120, 112, 111, 110, 101, 110, 116, 49>>, <<69, 120, 112, 111, 110, 101, 110, 116, 50>>,   \* Exponent1 Exponent2
+                          <<67, 111, 101, 102, 102, 105, 99, 105, 101, 110, 116>> >>                    \* Coefficient
+  ELSE << <<80, 114, 105, 118, 97, 116, 101, 75, 101, 121>> >>                                           \* PrivateKey
+KFBlankKinds(rich) == IF rich THEN {"none", "lead", "mid", "trail", "all", "double"} ELSE {"none", "lead", "mid", "trail"}
+KFBlanks(b) == CASE b = "none" -> <<0, 0, 0>> [] b = "lead" -> <<1, 0, 0>> [] b = "mid" -> <<0, 1, 0>> [] b = "trail" -> <<0, 0, 1>>
+                 [] b = "all" -> <<1, 1, 1>> [] OTHER -> <<2, 2, 2>>
+KFLayouts(rich) ==
+  { lay \in [fmt : {"v1.2", "v1.3"}, timing : BOOLEAN, mnem : BOOLEAN, blank : KFBlankKinds(rich), finalnl : BOOLEAN] :
+      lay.timing => lay.fmt = "v1.3" }
+KFTemplate(kind, lay) ==
+  LET names == KFKeyNames(kind)
+      field(n) == n \o <<58, 32, KFVal>>
+      lines == << KFCapFormat \o <<58, 32>> \o KFVersion(lay.fmt),
+                  field(KFCapAlgorithm) \o (IF lay.mnem THEN <<32, 40, KFMnem, 41>> ELSE <<>>) >>
+               \o [k \in 1..Len(names) |-> field(names[k])]
+               \o (IF lay.timing THEN [i \in 1..3 |-> KFCapTiming[i] \o <<58, 32>> \o KFStamp] ELSE <<>>)
+      b == KFBlanks(lay.blank)
+      empty(n) == [i \in 1..n |-> <<>>]
+      all == empty(b[1]) \o Concat([i \in 1..Len(lines) |-> <<lines[i]>> \o (IF i < Len(lines) THEN empty(b[2]) ELSE <<>>)]) \o empty(b[3])
+  IN Concat([i \in 1..Len(all) |-> all[i] \o (IF i < Len(all) \/ lay.finalnl THEN <<10>> ELSE <<>>)])
+\* what every template of a kind must mean
+KFTemplateFields(kind) ==
+  { << KFnAlgorithm, <<KFVal>> >> } \cup { << Lower(KFKeyNames(kind)[k]), <<KFVal>> >> : k \in 1..Len(KFKeyNames(kind)) }
 =============================================================================
